@@ -98,10 +98,14 @@ impl Ctx {
     /// Is case (family, idx) this shard's to run?
     #[inline]
     pub fn take(&self, family: &str, idx: u64) -> bool {
-        match &self.only {
+        let mine = match &self.only {
             Some((f, i)) => f == family && *i == idx,
             None => idx % self.nshards == self.shard,
+        };
+        if mine {
+            crate::monitor::set_case(family, idx);
         }
+        mine
     }
 
     /// Whole family skipped in replay mode unless it is the replayed one.
